@@ -15,13 +15,13 @@ open EoVerif.Spec
     other than itself, named values, integer ordinals, no duplicate ordinal or name. -/
 theorem accepts_decls_wf (files : List ProtoFile) (out : GenOutput) (h : compile files = .ok out) :
     declsWF (files.map (·.root)) = true := by
-  sorry
+  exact Decls.declsWF_of_compile h
 
 /-- If the generator accepts a forest, every packet is under `net/client` or `net/server`, names a
     declared family and action, and is not a duplicate within its file. -/
 theorem accepts_packets_wf (files : List ProtoFile) (out : GenOutput) (h : compile files = .ok out) :
     packetsWF (files.map (fun f => (f.dir, f.root))) = true := by
-  sorry
+  exact Decls.packetsWF_of_compile h
 
 /-- Ill-formed declarations are rejected. -/
 theorem rejects_ill_formed_decls (files : List ProtoFile)
@@ -40,5 +40,17 @@ example : enumWF (.mk "enum" [("name", "E"), ("type", "char")] none none [ev "A"
 example : enumWF (.mk "enum" [("name", "E"), ("type", "char")] none none [ev "A" "1", ev "B" "1"]) = false := by decide
 example : enumWF (.mk "enum" [("name", "E"), ("type", "string")] none none [ev "A" "1"]) = false := by decide
 example : enumWF (.mk "enum" [("name", "E"), ("type", "char")] none none [ev "A" "x"]) = false := by decide
+
+/-! Why `declsWF` exempts enums whose own name contains `':'` (`nameHasColon`): the generator resolves the
+    name `A:char` as "enum `A` with underlying type `char`", so the element's own `type` attribute and its
+    own values are never read.  The forest below is accepted although its second enum is not `enumWF`. -/
+private def cexA : Xml := .mk "enum" [("name", "A"), ("type", "char")] none none [ev "X" "1"]
+private def cexB : Xml := .mk "enum" [("name", "A:char"), ("type", "string")] none none []
+private def cexFiles : List ProtoFile := [⟨".", .mk "protocol" [] none none [cexA, cexB]⟩]
+example : (compile cexFiles).toBool = true := by decide
+example : enumWF cexB = false := by decide
+example : nameHasColon cexB = true := by decide
+example : (cexFiles.map (·.root)).all (fun r => (r.findall "enum").all enumWF) = false := by decide
+example : declsWF (cexFiles.map (·.root)) = true := by decide
 
 end EoVerif.Gen
